@@ -29,12 +29,12 @@ type world struct {
 
 // ledger: what the harness knows it did in a batch.
 type ledger struct {
-	mu        sync.Mutex
-	certain   map[string]int // "METHOD code" -> requests whose head the proxy certainly read and whose status the client parsed
+	mu         sync.Mutex
+	certain    map[string]int // "METHOD code" -> requests whose head the proxy certainly read and whose status the client parsed
 	certainAny map[string]int // METHOD -> certainly read, status not observed by the client
-	uncertain map[string]int // METHOD -> head written, may or may not have been read before the abort
-	conns     int            // client sockets connected to the proxy
-	kinds     map[string]int
+	uncertain  map[string]int // METHOD -> head written, may or may not have been read before the abort
+	conns      int            // client sockets connected to the proxy
+	kinds      map[string]int
 }
 
 func newLedger() *ledger {
@@ -46,10 +46,10 @@ func (l *ledger) req(method string, code int) {
 	l.certain[fmt.Sprintf("%s %d", method, code)]++
 	l.mu.Unlock()
 }
-func (l *ledger) reqAny(method string)    { l.mu.Lock(); l.certainAny[method]++; l.mu.Unlock() }
-func (l *ledger) reqMaybe(method string)  { l.mu.Lock(); l.uncertain[method]++; l.mu.Unlock() }
-func (l *ledger) conn()                   { l.mu.Lock(); l.conns++; l.mu.Unlock() }
-func (l *ledger) kind(k string)           { l.mu.Lock(); l.kinds[k]++; l.mu.Unlock() }
+func (l *ledger) reqAny(method string)   { l.mu.Lock(); l.certainAny[method]++; l.mu.Unlock() }
+func (l *ledger) reqMaybe(method string) { l.mu.Lock(); l.uncertain[method]++; l.mu.Unlock() }
+func (l *ledger) conn()                  { l.mu.Lock(); l.conns++; l.mu.Unlock() }
+func (l *ledger) kind(k string)          { l.mu.Lock(); l.kinds[k]++; l.mu.Unlock() }
 
 func (w *world) originHandler(oc *lib.OConn, req *lib.Msg) lib.Action {
 	id := req.Get1("X-Vid")
@@ -458,9 +458,19 @@ func main() {
 		for time.Since(t0) < quietWait {
 			w.p.Transport.CloseIdleConnections()
 			mfs = w.p.Gather()
-			if lib.MetricSum(mfs, "fw_listener_cx_active", nil) == 0 && lib.MetricSum(mfs, "fw_dialer_cx_active", nil) == 0 && lib.MetricSum(mfs, "fw_http_requests_in_flight", nil) == 0 {
-				quiet = true
-				break
+			isQuiet := func(m map[string]*dto.MetricFamily) bool {
+				return lib.MetricSum(m, "fw_listener_cx_active", nil) == 0 && lib.MetricSum(m, "fw_dialer_cx_active", nil) == 0 && lib.MetricSum(m, "fw_http_requests_in_flight", nil) == 0
+			}
+			if isQuiet(mfs) {
+				// a gather is not atomic across metric families: the counters of this snapshot may have
+				// been read before the last exchange ended and the gauges after. Once the gauges are
+				// at zero nothing moves any more, so a second snapshot is consistent.
+				time.Sleep(5 * time.Millisecond)
+				if m2 := w.p.Gather(); isQuiet(m2) {
+					mfs = m2
+					quiet = true
+					break
+				}
 			}
 			time.Sleep(25 * time.Millisecond)
 		}
